@@ -34,13 +34,14 @@ type lifeSc struct {
 	Second    string   // "" | "idle" | "busy": call Connect again while connected
 	Pass      string
 	Procs     string
+	FloodOn   bool // flood protection on (cfg.Flood=false): lines get rate-limited, the sender sleeps inside write
 	NoJoin    bool // tracked sessions normally join #life after the welcome; the JOIN handler calls Me(), which hides a nil Config().Me
 }
 
 func (sc lifeSc) String() string {
-	return fmt.Sprintf("track=%v ping=%dms ctxdial=%v usectx=%v cycles=%d in=%d/%s out=%d/%s/%d server=%s handler=%s late=%v causes=%s reconnect=%s welcome=%q second=%q procs=%s nojoin=%v",
+	return fmt.Sprintf("track=%v ping=%dms ctxdial=%v usectx=%v cycles=%d in=%d/%s out=%d/%s/%d server=%s handler=%s late=%v causes=%s reconnect=%s welcome=%q second=%q procs=%s nojoin=%v floodprotection=%v",
 		sc.Tracking, sc.PingMs, sc.CtxAware, sc.UseCtx, sc.Cycles, sc.Inbound, sc.InSegs, sc.Outbound, sc.OutBy, sc.Users, sc.Server, sc.Handler, sc.GateLate,
-		strings.Join(sc.Causes, "+"), sc.Reconnect, sc.Welcome, sc.Second, sc.Procs, sc.NoJoin)
+		strings.Join(sc.Causes, "+"), sc.Reconnect, sc.Welcome, sc.Second, sc.Procs, sc.NoJoin, sc.FloodOn)
 }
 
 // lifeFinding is a judged observation tagged with the property it refutes.
@@ -88,7 +89,7 @@ func runLife(c *Ctx, sc lifeSc, seedLabel ...interface{}) (out lifeOutcome) {
 
 	var cancel context.CancelFunc
 
-	s := NewSession(SessionOpts{Tracking: sc.Tracking, CtxAware: sc.CtxAware, Flood: true, PingFreq: time.Duration(sc.PingMs) * time.Millisecond, Log: lg,
+	s := NewSession(SessionOpts{Tracking: sc.Tracking, CtxAware: sc.CtxAware, Flood: !sc.FloodOn, PingFreq: time.Duration(sc.PingMs) * time.Millisecond, Log: lg,
 		Mutate: func(cfg *client.Config) { cfg.Pass = sc.Pass }})
 	defer s.Release()
 	conn := s.Conn
@@ -253,7 +254,11 @@ func runLife(c *Ctx, sc lifeSc, seedLabel ...interface{}) (out lifeOutcome) {
 		}
 		// health of the fresh connection: two marker round trips
 		healthy := true
-		for k := 0; k < 2 && healthy; k++ {
+		rounds := 2
+		if sc.FloodOn {
+			rounds = 1 // every PONG is charged 2 s against the flood penalty
+		}
+		for k := 0; k < rounds && healthy; k++ {
 			if !s.WireMarker(mc) || !s.FgMarker(mc) {
 				healthy = false
 			}
@@ -441,6 +446,8 @@ func runLife(c *Ctx, sc lifeSc, seedLabel ...interface{}) (out lifeOutcome) {
 				blockedSet = append(blockedSet, "recv:in-full")
 			case role == "send" && g.HasFrame("rig.(*MemConn).Write"):
 				blockedSet = append(blockedSet, "send:socket")
+			case role == "send" && g.AtTimerSite():
+				blockedSet = append(blockedSet, "send:flood-sleep")
 			case role == "handler" && g.HasFrameContaining("props.runLife.func") && g.State == "chan receive":
 				blockedSet = append(blockedSet, "handler:gate")
 			}
